@@ -248,6 +248,16 @@ func (p *Posix) clearStaleAttributes(bucket, object string) error {
 	return p.meta.DeleteAttributes(bucket, object)
 }
 
+// checkObjectLock refuses to replace an object that is under legal hold or
+// retention. The S3 controller runs this check for PutObject and the delete
+// calls; CopyObject and CompleteMultipartUpload replace the object at their
+// destination key just the same.
+func (p *Posix) checkObjectLock(ctx context.Context, bucket, object string) error {
+	acct, _ := ctx.Value("account").(auth.Account)
+	return auth.CheckObjectAccess(ctx, bucket, acct.Access,
+		[]types.ObjectIdentifier{{Key: &object}}, true, p)
+}
+
 func (p *Posix) Shutdown() {
 	p.rootfd.Close()
 }
@@ -1447,6 +1457,13 @@ func (p *Posix) CompleteMultipartUpload(ctx context.Context, input *s3.CompleteM
 	}
 
 	sum, err := p.checkUploadIDExists(bucket, object, uploadID)
+	if err != nil {
+		return nil, err
+	}
+
+	// the key is overwritten like with PutObject: an object under legal hold
+	// or retention must not be replaced
+	err = p.checkObjectLock(ctx, bucket, object)
 	if err != nil {
 		return nil, err
 	}
@@ -4007,6 +4024,13 @@ func (p *Posix) CopyObject(ctx context.Context, input s3response.CopyObjectInput
 	}
 	if err != nil {
 		return nil, fmt.Errorf("stat bucket: %w", err)
+	}
+
+	// the destination is overwritten like with PutObject: an object under
+	// legal hold or retention must not be replaced
+	err = p.checkObjectLock(ctx, dstBucket, dstObject)
+	if err != nil {
+		return nil, err
 	}
 
 	objPath := joinPathWithTrailer(srcBucket, srcObject)
